@@ -202,7 +202,7 @@ def tokens(d):
     return cmds
 
 
-def flatten(d, steps=16):
+def flatten(d, steps=8):
     """absolute M L C Q Z path data -> list of closed contours [(x, y), ...] (floats)."""
     polys = []
     cur = None
